@@ -249,3 +249,24 @@ Definition td_step (o : td_order) (s : td_state) (e : td_event) : td_state :=
   end.
 Definition td_run (o : td_order) (h : list td_event) : td_state :=
   fold_left (td_step o) h {| td_at := td_first o; td_in_map := true; td_answered := false |}.
+
+(* -------------------------------------------------------------------------------------------------
+   A connection joins an existing bridge (packet_handler_tunnel_bridge.go handleExistingBridge): the handler writes the
+   TunnelOpenAck to the joining connection and attaches it to the bridge (SetTargetConnection wakes Bridge.Start, whose copy
+   loop then writes the pending source bytes to the same connection, with no lock shared with the ack's WritePacket).
+     AckThenAttach = the code; AttachThenAck = the ack moved behind the attach (seeded C02-25).
+   Thread 0 = the handler, thread 1 = the copy loop with n pending chunks.  Wire items: true = the ack, false = a tunnel chunk. *)
+Inductive join_order := AckThenAttach | AttachThenAck.
+Inductive jthread := JHandler (todo : list bool) | JCopy (pending : nat).     (* todo: true = send ack, false = attach *)
+Record jshared := { j_attached : bool; j_wire : list bool }.
+Definition jstep (t : jthread) (sh : jshared) : jthread * jshared :=
+  match t with
+  | JHandler [] => (t, sh)
+  | JHandler (true :: r) => (JHandler r, {| j_attached := j_attached sh; j_wire := j_wire sh ++ [true] |})
+  | JHandler (false :: r) => (JHandler r, {| j_attached := true; j_wire := j_wire sh |})
+  | JCopy O => (t, sh)
+  | JCopy (S n) => if j_attached sh then (JCopy n, {| j_attached := true; j_wire := j_wire sh ++ [false] |}) else (t, sh)
+  end.
+Definition join_run (o : join_order) (n : nat) (sched : list nat) : jshared * list jthread :=
+  run _ _ jstep ({| j_attached := false; j_wire := [] |},
+                 [JHandler (match o with AckThenAttach => [true; false] | AttachThenAck => [false; true] end); JCopy n]) sched.
